@@ -1,2 +1,60 @@
-/- C12 property theorems (under construction) -/
-import Decaf.Model.Exec
+/-
+C12 — The arkworks and the minimal backend are observationally identical.
+
+Everything above the square root is proved for every routine meeting the contract, and everything about the group
+law is proved both for the minimal backend's extended-coordinate formulas and for the reference affine law by which
+the arkworks backend is modelled.  The statements below put two different routines / two different sets of formulas
+side by side: same decoding verdict, same encoding bytes, same element from every program and every ladder.
+-/
+import Decaf.Props.C01
+import Decaf.Props.C05
+
+namespace C12
+open Model Edwards Decaf
+
+variable {sr sr' : SR}
+
+/-- decoding: same verdict in both builds, for every byte string -/
+theorem decode_verdict_agrees (h : SRContract sr) (h' : SRContract sr') (bytes : List ℕ) :
+    (∃ c, decode32 sr bytes = .ok c) ↔ (∃ c, decode32 sr' bytes = .ok c) := by
+  rw [C02.decode_accepts_iff h, C02.decode_accepts_iff h']
+
+/-- decoding: the same element, and then the same re-encoding -/
+theorem decode_result_agrees (h : SRContract sr) (h' : SRContract sr') (bytes : List ℕ) {c c' : Ext}
+    (hc : decode32 sr bytes = .ok c) (hc' : decode32 sr' bytes = .ok c') : Ext.eq c c' = true := by
+  obtain ⟨p, r, s, _, _, _⟩ := C02.decode_eq_spec h bytes hc
+  obtain ⟨p', r', s', _, _, _⟩ := C02.decode_eq_spec h' bytes hc'
+  exact (eq_iff_coset r r').mpr (C02.spec_unique s s')
+
+/-- errors are the same too (always the encoding error) -/
+theorem decode_error_agrees (h : SRContract sr) (h' : SRContract sr') (bytes : List ℕ) {e e' : DecErr}
+    (he : decode32 sr bytes = .error e) (he' : decode32 sr' bytes = .error e') : e = e' := by
+  rw [C02.decode_error_is_encoding h bytes he, C02.decode_error_is_encoding h' bytes he']
+
+/-- encoding: byte-identical, whatever representative each build holds -/
+theorem encode_agrees (h : SRContract sr) (h' : SRContract sr') {c c' : Ext} {p p' : E}
+    (hr : ERepr c p) (hr' : ERepr c' p') (he : Point.IsEven p) (hc : Point.Coset p p') :
+    Ext.encode sr c = Ext.encode sr' c' := by
+  unfold Ext.encode
+  rw [C03.encode_respects_element h h' hr hr' he hc]
+
+/-- group operations: every straight-line program gives the same element under both sets of formulas -/
+theorem programs_agree (envC : ℕ → Ext) (envP : ℕ → E) (h : ∀ i, ERepr (envC i) (envP i)) (e : C04.Expr) :
+    Ext.eq (C04.evalMin envC e) (C04.evalRef envC e) = true := C04.programs_agree envC envP h e
+
+/-- scalar multiplication: LSB-first ladder over HWCD formulas = MSB-first ladder over the reference law -/
+theorem scalar_mul_agrees {c : Ext} {p : E} (h : ERepr c p) (limbs : List ℕ) (hl : ∀ l ∈ limbs, l < 2 ^ 64) :
+    Ext.eq (c.scalarMulMin limbs) (c.scalarMulRef limbs) = true := C05.ladders_agree h limbs hl
+
+/-- and so does everything downstream: program, then encoding, in either build -/
+theorem program_encoding_agrees (h : SRContract sr) (h' : SRContract sr') (envC : ℕ → Ext) (envP : ℕ → E)
+    (henv : ∀ i, ERepr (envC i) (envP i)) (heven : ∀ i, Point.IsEven (envP i)) (e : C04.Expr) :
+    Ext.encode sr (C04.evalMin envC e) = Ext.encode sr' (C04.evalRef envC e) :=
+  encode_agrees h h' (C04.evalMin_repr envC envP henv e) (C04.evalRef_repr envC envP henv e)
+    (C01.obtainable_even envP heven e) (Point.Coset.refl _)
+
+/-- the curve constants of the two backends are the same numbers (generated literals, kernel-evaluated) -/
+theorem constants_agree : ZETA_min = ZETA ∧ fqLit Gen.min_curve_constants.top.COEFF_A = cA ∧
+    fqLit Gen.min_curve_constants.top.COEFF_D = cD ∧ cK = fmul q 2 cD := by decide +kernel
+
+end C12
